@@ -143,9 +143,9 @@ def c07_jobs(tier):
                     jobs.append(J("hsms", "ZZ_C07_declared", depth=d, nlb=nlb, present=present, kind=kind))
     for nlb, kind in ((2, 1), (3, 1), (3, 0), (3, 3), (2, 6)):
         jobs.append(J("hsms", "ZZ_C07_sparecap", nlb=nlb, kind=kind, extra=200000, fuel=400_000_000, timeout_s=(1500 if tier == "quick" else 7200)))
-    for fam in range(12):
-        scale = {3: 15000, 6: 3000, 7: 8000, 8: 6000, 9: 8000, 10: 8000, 11: 8000}.get(fam, 10000)  # members scale and 2*scale are decoded natively
-        jobs.append(J("hsms", "ZZ_C07_growth", fam=fam, j=(32 if tier == "quick" or fam == 6 else 128), scale=scale, fuel=400_000_000))
+    for fam in range(14):
+        scale = {3: 15000, 6: 3000, 12: 3000, 13: 3000, 7: 8000, 8: 6000, 9: 8000, 10: 8000, 11: 8000}.get(fam, 10000)  # members scale and 2*scale are decoded natively
+        jobs.append(J("hsms", "ZZ_C07_growth", fam=fam, j=(32 if tier == "quick" or fam in (6, 12, 13) else 128), scale=scale, fuel=400_000_000))
     return jobs
 
 
@@ -372,6 +372,8 @@ def c19_jobs(tier):
     # many messages in one text, deep nesting, a line longer than 131,072 columns with warnings on it and behind it
     for t1, t2, sep in ((14, 0, 1), (0, 14, 2), (14, 15, 2), (15, 14, 0), (15, 1, 2), (1, 15, 5), (16, 8, 2), (16, 1, 2), (8, 16, 2), (16, 12, 1)):
         jobs.append(J("sml", "ZZ_C19_concat", t1=t1, t2=t2, sep=sep, three=0, fuel=2_000_000_000, call_depth=3000, **T))
+    for t1, t2, sep in ((17, 18, 2), (18, 17, 1), (17, 0, 0)):
+        jobs.append(J("sml", "ZZ_C19_concat", t1=t1, t2=t2, sep=sep, three=0, fuel=2_000_000_000, call_depth=6000, **T))
     jobs.append(J("sml", "ZZ_C19_concat", t1=2, t2=2, t3=10, sep=1, sep2=2, three=1, **T))
     jobs.append(J("sml", "ZZ_C19_concat", t1=7, t2=0, t3=11, sep=2, sep2=0, three=1, **T))
     # a part that begins with k arbitrary bytes (whatever is accepted at the start of a text is accepted behind another text)
@@ -434,6 +436,8 @@ def c04_jobs(tier):
         jobs.append(J("sml", "ZZ_C04_vars", which=which, symc=(0 if tier == "quick" else 1), **T))
     for t in range(7):
         jobs.append(J("sml", "ZZ_C04_fixed", t=t, **T))
+    for t in (14, 15, 17, 18):  # many messages, deep and wide trees
+        jobs.append(J("sml", "ZZ_C04_fixed", t=t, fuel=2_000_000_000, call_depth=6000, **T))
     return jobs
 
 
@@ -670,9 +674,9 @@ _b("C06",
    "k<=4; 2 arbitrary bytes at every position; numbers up to 12 symbolic digits; 100 nested lists",
    ["inputs longer than the bound", "runtime-fatal stack exhaustion on megabyte-deep nesting", "coverage-guided mutation (different technique)"])
 _b("C07",
-   "k<=3 arbitrary text bytes (and k<=1 with arbitrary frame); an item header at nesting depth<=2 declaring an arbitrary 1..3-byte length with 0/2 bytes present (5 formats); inputs that are a prefix of a 200,000-byte buffer (5 header kinds); 9 growth families (engine: members 32/64; native: members scale and 2 x scale, 3,000..20,000)",
+   "k<=3 arbitrary text bytes (and k<=1 with arbitrary frame); an item header at nesting depth<=2 declaring an arbitrary 1..3-byte length with 0/2 bytes present (5 formats); inputs that are a prefix of a 200,000-byte buffer (5 header kinds); 14 growth families (engine: members 32/64; native: members scale and 2 x scale, 3,000..20,000)",
    "k<=5; depth<=4, 14 formats, 0/1/2/4 bytes present; growth members 128/256",
-   ["runtime-fatal stack exhaustion on megabyte-deep nesting", "input shapes outside the 9 growth families for the super-linear clause", "unstructured inputs longer than the bound"])
+   ["runtime-fatal stack exhaustion on megabyte-deep nesting", "input shapes outside the 14 growth families for the super-linear clause", "unstructured inputs longer than the bound"])
 _b("C08",
    "12 token sequences (valid, warnings, errors of 6 kinds, one-character tokens, rejected texts with the error behind the item); one layout change per path: 0..2 arbitrary white-space bytes at every boundary (also where optional), a // comment of 0..2 arbitrary bytes ending in LF, CRLF or end of input, with or without a blank, all case patterns of one keyword",
    "3 white-space bytes, comments up to 4 bytes",
